@@ -34,8 +34,11 @@ def write_harness(wd, plans):
     lines = ['#!/bin/sh', 'd=%s' % wd, 'echo "$1 $2" >> $d/starts.log',
              'n=$(/bin/cat $d/n.$1 2>/dev/null || echo 0)', 'n=$((n+1))', 'echo $n > $d/n.$1', 'case "$1:$n" in']
     for bench, plan in plans.items():
-        for k, (rc, text, dps) in enumerate(plan, 1):
+        for k, step in enumerate(plan, 1):
+            rc, text, dps = step[0], step[1], step[2]
             body = ''
+            if len(step) > 3 and step[3]:
+                body += '/bin/sleep %s; ' % step[3]
             if text:
                 body += "printf '%s\\n'; " % _octal(text)
             for j in range(1, dps + 1):
@@ -73,12 +76,54 @@ def run_cli(wd, cfg, argv=(), env_extra=None, timeout=90):
             'starts': starts, 'rows': rows}
 
 
+def run_cli_interrupt(wd, cfg, wait_starts, sig, argv=(), timeout=40):
+    """start the real CLI, wait until the harness has logged `wait_starts` starts, send `sig` to the ReBench process
+    (a pid started here), collect exit status and output"""
+    import signal
+    import time
+    conf = os.path.join(wd, 'cli.conf')
+    with open(conf, 'w') as f:
+        yaml.safe_dump(cfg, f, default_flow_style=False, sort_keys=False)
+    env = {'PATH': '/usr/bin:/bin', 'PYTHONPATH': lib.REPO, 'PYTHONHASHSEED': '0', 'PYTHONDONTWRITEBYTECODE': '1',
+           'PYTHONIOENCODING': 'utf-8', 'LC_ALL': 'C.UTF-8', 'HOME': wd}
+    # a child of a backgrounded shell would inherit SIGINT = ignore: make sure the child handles it
+    proc = subprocess.Popen([sys.executable, '-B', '-c',
+                             'import signal, runpy, sys; signal.signal(signal.SIGINT, signal.default_int_handler); '
+                             'sys.argv = ["rebench"] + sys.argv[1:]; runpy.run_module("rebench.rebench", run_name="__main__")',
+                             '-D', conf] + list(argv), cwd=wd, env=env, stdout=subprocess.PIPE, stderr=subprocess.PIPE)
+    log = os.path.join(wd, 'starts.log')
+    t0 = time.time()
+    seen = 0
+    while time.time() - t0 < 20 and proc.poll() is None:
+        if os.path.exists(log):
+            seen = len([l for l in open(log).read().split('\n') if l.strip()])
+            if seen >= wait_starts:
+                break
+        time.sleep(0.05)
+    time.sleep(0.2)
+    delivered = proc.poll() is None
+    if delivered:
+        os.kill(proc.pid, sig)
+    try:
+        out, err = proc.communicate(timeout=timeout)
+    except subprocess.TimeoutExpired:
+        proc.kill()
+        proc.communicate()
+        raise lib.InfraError('interrupted real-CLI session did not end in %d s' % timeout)
+    out = out.decode('utf-8', 'replace')
+    err = err.decode('utf-8', 'replace')
+    return {'exit': proc.returncode, 'delivered': delivered, 'starts_seen': seen, 'stdout_tail': out[-300:],
+            'stderr_tail': err[-800:], 'traceback': ('Traceback (most recent call last)' in out + err),
+            'thread_exception': ('Exception in thread' in out + err)}
+
+
 def base_config(wd, benches, builds=None):
     """benches: {name: {'N':, 'retries':, 'exe': id}}; builds: {exe id: shell text}"""
     suites, execs, per_exe = {}, {}, {}
     for name, b in benches.items():
         suites['S' + name] = {'gauge_adapter': 'RebenchLog', 'command': '%(benchmark)s %(invocation)s',
-                              'benchmarks': [{name: {'invocations': b['N'], 'retries_after_failure': b.get('retries', 0)}}]}
+                              'benchmarks': [{name: {'invocations': b['N'], 'retries_after_failure': b.get('retries', 0),
+                                                     'execute_exclusively': bool(b.get('excl', True))}}]}
         per_exe.setdefault(b.get('exe', 0), []).append('S' + name)
     for x, ss in per_exe.items():
         e = {'path': wd, 'executable': 'h.sh'}
